@@ -17,9 +17,9 @@ def boundary_tx(r, feature, big):
     tags = [feature]
     if feature == 'plain': pass
     elif feature == 'in_count':
-        n = r.choice([252, 253, 254] + ([65535, 65536] if big else [])); ins = [(rb(32), i & 0xffffffff, b'', 0) for i in range(n)]; tags.append('in=%d' % n)
+        n = r.choice([252, 253, 254, 1025, 2049] + ([65535, 65536] if big else [])); ins = [(rb(32), i & 0xffffffff, b'', 0) for i in range(n)]; tags.append('in=%d' % n)
     elif feature == 'out_count':
-        n = r.choice([252, 253, 254] + ([65535, 65536] if big else [])); outs = [(i, b'') for i in range(n)]; tags.append('out=%d' % n)
+        n = r.choice([252, 253, 254, 1024, 1025, 2049, 4100] + ([65535, 65536] if big else [])); outs = [(i, b'') for i in range(n)]; tags.append('out=%d' % n)
     elif feature == 'script_len':
         n = r.choice([0, 1, 75, 76, 252, 253, 254, 255, 256, 65535, 65536] + ([70000] if big else []))
         if r.random() < 0.5: ins[0] = inp(n)
@@ -43,7 +43,7 @@ def boundary_tx(r, feature, big):
 def explore(ck):
     r = ck.rng; quick = ck.tier == 'quick'
     ck.rule = ('generated chains over the 8 coins, --verify on/off (on: block 0 is the coin\'s real genesis block), each transaction built around one feature: '
-               'input/output count 252/253/254 (65535/65536 thorough), script length 0,1,75,76,252..256,65535,65536 (70000 thorough), segwit with stacks of 0,1,2,253 items '
+               'input/output count 252/253/254/1024/1025/2049/4100 (65535/65536 thorough), script length 0,1,75,76,252..256,65535,65536 (70000 thorough), segwit with stacks of 0,1,2,253 items '
                'and item lengths 0,1,252,253,300,520,521,600,10000 (70000 thorough), non-canonical CompactSize widths for every count/length, u32/u64 extremes, byte-identical (coinbase and other) transactions in several blocks, XOR-obfuscated directories (key with a zero byte), stored length prefixes 0 / len-1 / len+9 / 2^32-1 (reported as stored), --start > 0, blocks alternating between two files with each block at the offset where its predecessor ended in the other file; tx counts 1,2,3,252..254; '
                'compared: the four CSV files byte for byte, names, totals, exit status. Non-trivial: a boundary-width count/length or a segwit transaction; distinct by feature tags.')
     feats = ['plain', 'in_count', 'out_count', 'script_len', 'segwit', 'noncanonical', 'extremes']
